@@ -11,8 +11,7 @@ Definition with_flavour (c : cfg) (b : bool) : cfg :=
      c_coster := c_coster c; c_async := b |}.
 
 (* the steps whose outcome may depend on the flavour: a get-ring flush when the policy's queue
-   already holds SYNC_POLICY_QUEUE_CAP batches (sync drops, async queues), a remove() whose Delete
-   finds the insert buffer full (sync gives up with an error, async awaits), and the two stop
+   already holds SYNC_POLICY_QUEUE_CAP batches (sync drops, async queues), and the two stop
    handshakes of close() (sync rendezvous, async buffered message) *)
 Definition flavour_insensitive (c : cfg) (st : cstate) (l : label) : Prop :=
   match l with
@@ -20,7 +19,6 @@ Definition flavour_insensitive (c : cfg) (st : cstate) (l : label) : Prop :=
       if is_lookup op && negb (s_closed st) then N.of_nat (length (s_pqueue st)) < Consts.SYNC_POLICY_QUEUE_CAP else True
   | LClient a =>
       match client_of st a with
-      | KRemSend k cf => buf_send c st (IDelete k cf) <> None
       | KCloseBeforeStop => s_pc st = PExited
       | KPolCloseBeforeStop => s_wpc st = WExited
       | _ => True
@@ -116,7 +114,6 @@ Proof.
     + destruct (s_closed st); [exact eq_refl|]. cbn [negb] in FI. rewrite (ring_push_flavour c st k FI). exact eq_refl.
     + destruct (s_closed st); [exact eq_refl|]. cbn [negb] in FI. rewrite (ring_push_flavour c st k FI). exact eq_refl.
   - unfold continue_client. destruct (client_of st a); fl c true; fl c false; try (exact eq_refl).
-    + destruct (buf_send c st (IDelete k c0)); [exact eq_refl|congruence].
     + rewrite FI. exact eq_refl.
     + rewrite FI. exact eq_refl.
   - rewrite !proc_step_flavour. exact eq_refl.
